@@ -131,6 +131,16 @@ theorem erase_setAttribute (d : Dom) (Z : List Id) (x : Id) (n v : String) (hx :
   · exact erase_modify d Z x _ _ hx (fun r => rfl)
   · rfl
 
+theorem erase_removeAttribute (d : Dom) (Z : List Id) (x : Id) (n : String) (hx : x ∉ Z) :
+    erase (d.removeAttribute x n) Z = (erase d Z).removeAttribute x n := by
+  unfold Dom.removeAttribute
+  rw [isElement_erase d hx]
+  split
+  · refine erase_modify d Z x _ _ hx (fun r => ?_)
+    simp only [eraseRec]
+    cases getA r.attrs n <;> rfl
+  · rfl
+
 theorem filter_keep_ne (Z : List Id) (c : Id) (l : List Id) :
     (l.filter (· != c)).filter (keep Z) = (l.filter (keep Z)).filter (· != c) := by
   rw [List.filter_filter, List.filter_filter]
